@@ -90,7 +90,7 @@ def load_known():
 class Sub:
     """One generated sub-check of a property."""
 
-    def __init__(self, name, strategy, fn, quick, thorough, configs=("asm",), thorough_configs=None, setup=None, weight=1.0):
+    def __init__(self, name, strategy, fn, quick, thorough, configs=("asm",), thorough_configs=None, setup=None, weight=1.0, nondeterministic=False):
         self.name = name
         self.strategy = strategy
         self.fn = fn
@@ -99,6 +99,8 @@ class Sub:
         self.configs = configs
         self.thorough_configs = thorough_configs or configs
         self.setup = setup
+        # schedule-dependent checks: no shrinking (a failing case need not fail again), one reproduction out of three suffices
+        self.nondeterministic = nondeterministic
 
 
 class Ctx:
@@ -184,14 +186,14 @@ def _run_sub(ctx, sub, cfg, n, libs):
     test = given(sub.strategy)(body)
     test = seed(_derive_seed(ctx.vseed, ctx.pid, sub.name, cfg, ctx.worker))(test)
     test = settings(max_examples=max(1, n), database=None, deadline=None, derandomize=False, report_multiple_bugs=False,
-                    suppress_health_check=list(HealthCheck), phases=[Phase.generate, Phase.shrink], print_blob=False)(test)
+                    suppress_health_check=list(HealthCheck), phases=[Phase.generate] if sub.nondeterministic else [Phase.generate, Phase.shrink], print_blob=False)(test)
     try:
         test()
     except Violation:
         case, v = state["last"]
         return (sub.name, cfg, case, v)
     except BaseException as e:  # harness problem or an unexpected exception inside the property
-        if state["last"] is not None and isinstance(e.__cause__, Violation):
+        if state["last"] is not None and (isinstance(e.__cause__, Violation) or sub.nondeterministic or type(e).__name__ in ("FlakyFailure", "Flaky")):
             case, v = state["last"]
             return (sub.name, cfg, case, v)
         raise
@@ -302,6 +304,8 @@ def replay_case(mod, pid, path, times=3, quiet=False):
         elif os.WEXITSTATUS(status) != 0:
             fails += 1
             msg = "%s/crash: library call ended the process with status %d (sanitizer abort?)" % (sub.name, os.WEXITSTATUS(status))
+    if sub.nondeterministic:
+        return fails >= 1, msg
     return fails == times, msg
 
 
